@@ -807,7 +807,7 @@ class Models:
             if isinstance(it, GenCall):
                 items_res = self.collect_generator(ex, it, r.st, node)
             elif isinstance(it, SSeq) or hasattr(it, "__pyvc_symbolic_iter__"):
-                outs.append(Val(self.symbolic_comprehension(ex, node, gen, it, r.st, kind), r.st))
+                outs.extend(self.symbolic_comprehension_outcomes(ex, node, gen, it, r.st, kind))
                 continue
             else:
                 items_res = [Val(self.iter_concrete(ex, it, node), r.st)]
@@ -817,6 +817,36 @@ class Models:
                     continue
                 outs.extend(self._comp_over(ex, node, gen, ir.v, ir.st, kind))
         return outs
+
+    def symbolic_comprehension_outcomes(self, ex, node, gen, it, st, kind):
+        """The comprehension either raises (some element's evaluation raises) or yields the
+        element-wise abstraction under the assumption that no element raised."""
+        from .abstractions import SymMapped
+
+        sm = self.symbolic_comprehension(ex, node, gen, it, st, kind)
+        root = sm.root() if isinstance(sm.base, SymMapped) else sm.base
+        if not isinstance(root, SSeq) or root.elem != "str":
+            return [Val(sm, st)]
+        probe = z3.String(fresh_name("probe"))
+        base = st.fork()
+        n0 = len(base.pc)
+        raising = {}
+        for s1, k, val in sm.elementwise(ex, SStr(probe), base):
+            if k == "raise":
+                cond = z3.And(*s1.pc[n0:]) if len(s1.pc) > n0 else z3.BoolVal(True)
+                raising.setdefault(val.cls, []).append(cond)
+        out = []
+        if raising:
+            allc = z3.Or(*[c for cs in raising.values() for c in cs])
+            for cls in raising:
+                s2 = st.fork()
+                out.append(Exc(ExcVal(cls, (V.sstr(fresh_name("excmsg")),)), s2))
+            # No assumption is made on the normal path: a raise alternative may be a
+            # nondeterministic outcome of a callee (e.g. "may raise re.error"), and returning
+            # normally then only means that choice was not taken for any element.
+            sm.no_raise = True
+        out.append(Val(sm, st))
+        return out
 
     def symbolic_comprehension(self, ex, node, gen, it, st, kind):
         """[elt for target in <symbolic sequence> if conds]: element-wise abstraction."""
@@ -828,15 +858,13 @@ class Models:
 
         def fn(ex_, elem, st0):
             s = st0.fork()
-            saved_env = s.env
-            s.env = dict(env_snapshot)
+            s.frames.append(dict(env_snapshot))
             res = []
             for r in self._comp_over(ex_, node, gen, [elem], s, "list"):
+                r.st.frames.pop()
                 if isinstance(r, Exc):
-                    r.st.env = saved_env
                     res.append((r.st, "raise", r.exc))
                 else:
-                    r.st.env = saved_env
                     if len(r.v) == 1:
                         res.append((r.st, "keep", r.v[0]))
                     else:
@@ -982,13 +1010,12 @@ class Models:
         names = [x.arg for x in a.args]
         if len(names) != len(args):
             ex.unsupported(node, "lambda arity")
-        saved = st.env
         env = dict(lam.env)
         env.update(zip(names, args))
-        st.env = env
+        st.frames.append(env)
         out = []
         for r in ex.eval(lam.node.body, st):
-            r.st.env = saved
+            r.st.frames.pop()
             out.append(r)
         return out
 
